@@ -449,6 +449,19 @@ def rule_port_widths(run):
                 break
             if isinstance(g, ast.If) and ("is_output" in src(g.test) or "is_input" in src(g.test) or "direction" in src(g.test).lower()):
                 guard_bad.append(src(g.test)[:60])
+    # ... and the declared (root) kind of the actual is the port's kind: the port map names the root object or a slice of
+    # it, whose VHDL type is the root's - a typed view (.unsigned of a BitVector) or a slice of an Unsigned is not converted
+    rootvars = {a.targets[0].id for a in ast.walk(br[0]) if isinstance(a, ast.Assign) and isinstance(a.targets[0], ast.Name) and "_root" in src(a.value)}
+    kind = None
+    for a in ast.walk(br[0]):
+        if isinstance(a, ast.Assert):
+            subs = [c for c in ast.walk(a.test) if isinstance(c, ast.Call) and dotted(c.func) == "issubclass" and c.args]
+            firsts = {dotted(c.args[0]) for c in subs}
+            if len(subs) >= 2 and firsts & rootvars and len(firsts) >= 2 and any(isinstance(c, ast.Compare) for c in ast.walk(a.test)):
+                kind = a
+    run.ob(kind is not None, "Entity.__init__", file=ctx.rel, line=(kind.lineno if kind else br[0].lineno), detail="actual-kind-equals-port-kind",
+           expected="assert issubclass(<root type of the actual>, K) == issubclass(<port type>, K) for K in Signed, Unsigned",
+           found="ok" if kind is not None else "the declared type of the actual is never compared with the port type: `Sub(x=bv.unsigned)` is emitted as `x => bv` (std_logic_vector associated with an unsigned port)")
     run.ob(ok and not guard_bad, "Entity.__init__", file=ctx.rel, line=(found.lineno if found else br[0].lineno), detail="actual-width-equals-port-width",
            expected="assert <actual>.width == <port type>.width for every vector port",
            found="ok" if ok and not guard_bad else (f"only under {guard_bad}" if guard_bad else "widths are never compared: `Sub(x=u4)` for a port `x: Unsigned[8]` is emitted as `x => u4` (width mismatch in the port map)"))
